@@ -68,6 +68,8 @@ func verifLabelKeyMenu() []schema.DependencyKeys {
 		{Labels: []schema.LabelDependent{{Index: 0, Value: "ab"}}},
 		{Labels: []schema.LabelDependent{{Index: 0, Value: "abc"}, {Index: 1, Value: "aws"}}},
 		{Labels: []schema.LabelDependent{{Index: 1, Value: "b"}}},
+		{Labels: []schema.LabelDependent{{Index: 0, Value: "aws"}, {Index: 1, Value: "vpc"}}},
+		{Labels: []schema.LabelDependent{{Index: 0, Value: "azr"}, {Index: 1, Value: "inst"}}},
 		{Labels: []schema.LabelDependent{{Index: 0, Value: "stat"}}, Attributes: static},
 	}
 }
@@ -100,7 +102,7 @@ func VerifP_C06C07_LabelCandidates(mode int) {
 	prefix := ""
 	if mode == 1 {
 		idx = verifChoice("idx", 2)
-		prefix = []string{"", "a", "ab", "aws", "b", "x"}[verifChoice("prefix", 6)]
+		prefix = []string{"", "a", "ab", "aws", "b", "x", "in"}[verifChoice("prefix", 7)]
 	}
 	if mode == 0 {
 		prefix = []string{"", "a"}[verifChoice("prefix", 2)]
@@ -129,34 +131,43 @@ func VerifP_C06C07_LabelCandidates(mode int) {
 		verifReach("end")
 		return
 	}
-	values := []string{"aws", "azr", "ab", "abc", "b", "stat", "zzz"}
+	values := []string{"aws", "azr", "ab", "abc", "b", "inst", "vpc", "stat", "zzz"}
 	total := 0
-	for _, v := range values {
-		expect := false
+	expects := make([]bool, len(values))
+	counts := make([]int, len(values))
+	for q, v := range values {
 		for i, k := range menu {
 			if !present[i] {
 				continue
 			}
 			for _, l := range k.Labels {
 				if l.Index == idx && l.Value == v && hasPrefixSym(v, prefix) {
-					expect = true
+					expects[q] = true
 				}
 			}
 		}
-		if expect {
+		if expects[q] {
 			total++
 		}
-		cnt := 0
 		for _, c := range cs.List {
 			if c.Label == v {
-				cnt++
+				counts[q]++
 			}
 		}
-		verifAssert(cnt <= 1, "C07:label-no-duplicates")
+	}
+	if cs.IsComplete {
+		// a matching label value missing from a list marked complete contradicts both the flag (C06)
+		// and "exactly the dependent-body label values" (C07)
+		for q, v := range values {
+			verifAssert(!(expects[q] && counts[q] == 0), "C06/C07:list-marked-complete-leaves-out-no-matching-label["+v+"]")
+		}
+	}
+	for q, v := range values {
+		verifAssert(counts[q] <= 1, "C07:label-no-duplicates")
 		if mode != 2 {
-			verifAssert((cnt == 1) == expect, "C07:label-offered-iff-in-dependent-keys["+v+"]")
-		} else if cnt == 1 {
-			verifAssert(expect, "C07:label-offered-only-if-in-dependent-keys["+v+"]")
+			verifAssert((counts[q] == 1) == expects[q], "C07:label-offered-iff-in-dependent-keys["+v+"]")
+		} else if counts[q] == 1 {
+			verifAssert(expects[q], "C07:label-offered-only-if-in-dependent-keys["+v+"]")
 		}
 	}
 	for _, c := range cs.List {
@@ -191,23 +202,30 @@ func VerifH_C14_WorkspaceSymbols() {
 		"pa": {"a.tf": "alpha = 1\nres  \"aws\"  \"x\" {\n  inner = 1\n}\n", "b.tf": "beta = 2\n"},
 		"pb": {"c.tf": "gamma = 3\nalphabet = 4\n"},
 		"pc": {"d.tf": "mod \"alpha\" {\n}\n", "e.tf": "\n"},
+		// the directory of pa once more, in another language
+		"pa|vars": {"v.tfvars": "alpha_value = 1\n"},
 	}
 	// the top-level items as written, in file-name and source order
 	written := map[string][]string{
-		"pa": {"alpha", "res \"aws\" \"x\"", "beta"},
-		"pb": {"gamma", "alphabet"},
-		"pc": {"mod \"alpha\""},
+		"pa":      {"alpha", "res \"aws\" \"x\"", "beta"},
+		"pb":      {"gamma", "alphabet"},
+		"pc":      {"mod \"alpha\""},
+		"pa|vars": {"alpha_value"},
 	}
 	orderIdx := verifChoice("order", 3)
-	order := [][]string{{"pa", "pb", "pc"}, {"pb", "pa", "pc"}, {"pc", "pb", "pa"}}[orderIdx]
+	order := [][]string{{"pa", "pa|vars", "pb", "pc"}, {"pb", "pa", "pc", "pa|vars"}, {"pc", "pa|vars", "pb", "pa"}}[orderIdx]
 	r := &verifFaultyReader{order: order, ctxs: map[string]*PathContext{}, fail: map[string]bool{}}
-	for _, p := range []string{"pa", "pb", "pc"} {
+	for _, p := range []string{"pa", "pb", "pc", "pa|vars"} {
 		files := map[string]*hcl.File{}
 		for name, src := range srcs[p] {
 			files[name] = verifParseHCL(src, name)
 		}
 		r.ctxs[p] = &PathContext{Files: files}
-		r.fail[p] = verifBool("fail-" + p)
+		flag := "fail-" + p
+		if p == "pa|vars" {
+			flag = "fail-pa-vars"
+		}
+		r.fail[p] = verifBool(flag)
 	}
 	query := []string{"", "alpha", "a", "res", "zz", "\"aws\"", "res \"aws\"", "s\" \"x"}[verifChoice("query", 8)]
 	d := NewDecoder(r)
@@ -229,9 +247,8 @@ func VerifH_C14_WorkspaceSymbols() {
 	for i := range want {
 		if i < len(syms) {
 			verifAssert(syms[i].Name() == want[i].name, "C14:workspace-symbol-name-and-order")
-			verifAssert(syms[i].Path().Path == want[i].path, "C14:workspace-symbol-path")
+			verifAssert(verifKeyOfPath(syms[i].Path()) == want[i].path, "C14:workspace-symbol-path")
 		}
 	}
 	verifReach("end")
 }
-
